@@ -20,10 +20,14 @@ tie      : real extension through graphql/executor with a recording cache around
            per-request outcome, executed document, cache calls and final contents compared with the model
 decide   : the Spec (Apq.specOk, proved to hold of the model for all inputs) is evaluated by the Lean driver on the
            implementation's own trace of EVERY history; a Spec failure is a concrete failing history (shrunk)
+budgets  : failing histories are counted, at most KEEP per kind are kept (the shortest); the MAX_REPORTS shortest of distinct
+           form are shrunk (ddmin, SHRINK_REPLAYS replays each, REPORT_SECONDS together) and reported; after ENOUGH Spec
+           failures no further exhaustive chunk is started. The check ends also when nearly every history fails.
 """
 import json
 import os
 import re
+import time
 from collections import Counter
 from concurrent.futures import ThreadPoolExecutor
 
@@ -34,6 +38,14 @@ NALPHA = 18
 CORPUS = os.path.join(vf.VERIF, "corpus", "C15", "histories.txt")
 _RAW = re.compile(r"!(raw|doc)=[^| ]*")
 _OPNAME = re.compile(r"\^([A-Za-z_]*)")
+_FORM = re.compile(r"\d+(\.\d+)?|=[0-9a-f]*|\?[0-9a-f]*")
+
+# ---- budgets: every loop of the check ends, also when nearly every history violates
+KEEP = 400            # failing histories kept per kind (Spec failures / divergences); the rest is only counted
+ENOUGH = 2000         # Spec failures after which no further exhaustive chunk is started (the verdict is settled)
+MAX_REPORTS = 6       # candidates looked at for reporting (shortest first), distinct shrunk histories reported
+SHRINK_REPLAYS = 120  # harness+driver replays one shrink may spend
+REPORT_SECONDS = 150  # wall time all shrinking together may spend; afterwards histories are reported unshrunk
 
 
 def _for_spec(obs):
@@ -110,12 +122,53 @@ class Acc:
         self.branch = Counter()
         self.bycache = Counter()
         self.gen = Counter()
-        self.div = []        # (row, model_line)
-        self.specbad = []    # (row, verdict)
+        self.div = Kept()      # histories on which implementation and model differ (or the trace is unparsable)
+        self.specbad = Kept()  # histories whose implementation trace fails the Spec
+        self.stopped_early = None
         self.unparsable = 0
         self.samples = []
         self.http = Counter()
         self.opdim = Counter()
+
+
+def _ntoks(r):
+    return r[2].count(" ") + 1
+
+
+class Kept:
+    """Bounded memory of failing histories: the first KEEP seen, afterwards a strictly shorter history replaces the
+    longest one kept. Constant work per history unless it is shorter than everything the full list could lose
+    (each replacement lowers the total length kept, so there are at most KEEP * max-length of them per run)."""
+
+    def __init__(self):
+        self.items = []      # (row, verdict-or-None, model_line) in order of arrival
+        self.count = 0       # all failing histories, kept or not
+        self.bound = None    # length of the longest kept history once the list is full
+
+    def add(self, row, verdict, model_line):
+        self.count += 1
+        it = (row, verdict, model_line)
+        if len(self.items) < KEEP:
+            self.items.append(it)
+            if len(self.items) == KEEP:
+                self.bound = max(_ntoks(x[0]) for x in self.items)
+            return
+        if _ntoks(row) >= self.bound:
+            return
+        j = max(range(KEEP), key=lambda k: _ntoks(self.items[k][0]))
+        self.items[j] = it
+        self.bound = max(_ntoks(x[0]) for x in self.items)
+
+    def shortest_first(self):
+        """stable: among histories of equal length the order of arrival (directed and corpus histories come first);
+        histories whose observation has a form not seen yet (text / hash ids and operation names abstracted) come before
+        further instances of a form, so that the few that are reported differ in kind"""
+        first, rest, forms = [], [], set()
+        for it in sorted(self.items, key=lambda x: _ntoks(x[0])):
+            form = (it[1], _FORM.sub("N", it[0][3]))
+            (rest if form in forms else first).append(it)
+            forms.add(form)
+        return first + rest
 
 
 def _process(acc, gen, tabs, runs, have_driver):
@@ -160,6 +213,7 @@ def _process(acc, gen, tabs, runs, have_driver):
             acc.http["histories_with_document_cache"] += 1
         # operation dimension: per hash, the operations executed so far out of the text registered for it
         ran = {}
+        missed = set()
         for rq, ob in zip(reqs, obs):
             parts = ob.split("|")
             if "^" in rq or (len(parts) == 3 and "." in parts[1]):
@@ -178,6 +232,13 @@ def _process(acc, gen, tabs, runs, have_driver):
                 elif len(parts) == 3 and parts[0].startswith("run:") and parts[1] == "x:-":
                     acc.opdim["no_such_operation_or_rejected_text"] += 1
             c = _classify(rq, ob, added, final) if len(parts) == 3 and rq.count("/") == 2 else "unclassified"
+            if c.startswith("hash-only:miss") or c == "hash-only:other":
+                # the dimension of seeded change 9: the SAME hash looked up again after a miss, nothing registered in between
+                hh = rq.split("/")[1].split(",", 1)[1]
+                if hh in missed and hh not in added:
+                    c = "hash-only:asked-again-after-a-miss(" + c.split(":", 1)[1] + ")"
+                    nt = True
+                missed.add(hh)
             acc.branch[c] += 1
             if c.startswith(("hash-only:hit", "hash-only:miss-after", "mismatch:", "register:again")):
                 nt = True
@@ -186,15 +247,15 @@ def _process(acc, gen, tabs, runs, have_driver):
         if nt:
             acc.nontriv.add(hash((r[1], r[2])))
         if model is not None:
-            if model[i] != r[3] + "\t" + r[4]:
-                acc.div.append((r, model[i]))
+            diverges = model[i] != r[3] + "\t" + r[4]
             v = verdicts[i]
             if v.startswith("violates"):
-                acc.specbad.append((r, v))
+                acc.specbad.add(r, v, model[i])
             elif v != "ok":
                 acc.unparsable += 1
-                if not any(x[0] is r for x in acc.div):
-                    acc.div.append((r, model[i]))
+                diverges = True
+            if diverges:
+                acc.div.add(r, None, model[i])
         if len(acc.samples) < 6 and (acc.hist in (3, 17) or (nt and acc.hist % 9973 == 0)):
             acc.samples.append({"cache": r[1], "history": r[2], "observed": r[3], "final_cache": r[4]})
 
@@ -207,35 +268,67 @@ def _replay_one(hbin, kind, toks):
     return r, out[len(tabl)], out[len(tabl) + 1]
 
 
-def _shrink(hbin, kind, toks, want_spec_failure):
-    """Delta-debug a history: drop requests while the failure (Spec failure, else divergence) persists."""
+class Budget:
+    """what all shrinking of one run together may spend"""
+
+    def __init__(self, seconds):
+        self.deadline = time.time() + seconds
+        self.replays = 0
+
+    def left(self):
+        return time.time() < self.deadline
+
+
+def _shrink(hbin, kind, toks, want_spec_failure, budget=None):
+    """Delta-debug a history (ddmin: drop chunks of half, a quarter, ... one request) while the failure (Spec failure,
+    else divergence) persists. Bounded: at most SHRINK_REPLAYS replays and only while the run's budget lasts; what is
+    reached by then is returned (still a failing history, possibly not minimal)."""
+    spent = [0]
+
     def bad(ts):
         if not ts:
             return False
+        spent[0] += 1
+        if budget is not None:
+            budget.replays += 1
         try:
             r, m, v = _replay_one(hbin, kind, ts)
         except Exception:
             return False
         return v.startswith("violates") if want_spec_failure else (m != r[3] + "\t" + r[4])
+
+    def more():
+        return spent[0] < SHRINK_REPLAYS and (budget is None or budget.left())
+
     cur = list(toks)
-    changed = True
-    while changed and len(cur) > 1:
+    size = max(1, len(cur) // 2)
+    while len(cur) > 1 and more():
         changed = False
-        for i in range(len(cur)):
-            cand = cur[:i] + cur[i + 1:]
-            if bad(cand):
+        i = 0
+        while i < len(cur) and len(cur) > 1 and more():
+            cand = cur[:i] + cur[i + size:]
+            if cand and bad(cand):
                 cur = cand
                 changed = True
-                break
+            else:
+                i += size
+        if size > 1:
+            size = min(max(1, size // 2), max(1, len(cur) // 2))
+        elif not changed:
+            break            # 1-minimal: no single request can be dropped
     return cur
 
 
-def _report(ctx, hbin, r, model_line, verdict, kind_of):
+def _report(ctx, hbin, r, model_line, verdict, kind_of, budget=None, seen=None):
     kind, toks = r[1], (r[2].split(" ") if r[2] != "-" else [])
     failing = verdict is not None and verdict.startswith("violates")
     small = toks
     try:
-        small = _shrink(hbin, kind, toks, failing) if len(toks) <= 64 else toks
+        small = _shrink(hbin, kind, toks, failing, budget) if len(toks) <= 64 else toks
+        if seen is not None:
+            if (kind, tuple(small)) in seen:
+                return False     # shrinks to a history that is already reported
+            seen.add((kind, tuple(small)))
         rr, mm, vv = _replay_one(hbin, kind, small)
     except Exception:
         rr, mm, vv = r, model_line, verdict
@@ -269,6 +362,7 @@ def _report(ctx, hbin, r, model_line, verdict, kind_of):
                   "Spec = GqlgenVerif.Apq.specOk (theorem model_satisfies_spec)" % (kind, " ".join(small)),
     }
     ctx.violation(rep, no_failing_input=not failing)
+    return True
 
 
 def run(ctx):
@@ -340,25 +434,37 @@ def run(ctx):
             chunks.append((c, 4, "", "exhop"))
 
     def work(ch):
+        if acc.stopped_early:
+            return ch, None
         c, L, pre = ch[:3]
         args = ["-mode", ch[3] if len(ch) > 3 else "exh", "-cache", c, "-len", L]
         if pre:
             args += ["-prefix", pre]
         return ch, _run_harness(hbin, args)
 
+    skipped = 0
     with ThreadPoolExecutor(max_workers=3 if thorough else 4) as ex:
-        for ch, (tb, rs) in ex.map(work, chunks):
+        for ch, res in ex.map(work, chunks):
+            if res is None:
+                skipped += 1
+                continue
+            tb, rs = res
             _process(acc, "exhaustive%s-len%d" % ("-operations" if len(ch) > 3 else "", ch[1]), tb, rs, have_driver)
+            if acc.specbad.count >= ENOUGH and not acc.stopped_early:
+                # the verdict is settled and there are more than enough failing histories to choose a short one from:
+                # chunks not started yet are skipped (the quick tier's four chunks start at once; this bounds the
+                # thorough tier, whose 170 chunks take 20 minutes)
+                acc.stopped_early = "%d Spec failures after %d histories" % (acc.specbad.count, acc.hist)
 
     # ---- decide
-    reported = set()
-    for r, v in acc.specbad[:6]:
-        m = next((m for rr, m in acc.div if rr is r), None)
-        _report(ctx, hbin, r, m, v, "spec-violation")
-        reported.add(id(r))
-    if not acc.specbad:
-        for r, m in acc.div[:6]:
-            _report(ctx, hbin, r, m, None, "correspondence")
+    budget = Budget(REPORT_SECONDS)
+    seen = set()
+    nrep = 0
+    for r, v, m in acc.specbad.shortest_first()[:MAX_REPORTS]:
+        nrep += 1 if _report(ctx, hbin, r, m, v, "spec-violation", budget, seen) else 0
+    if not acc.specbad.count:
+        for r, _v, m in acc.div.shortest_first()[:MAX_REPORTS]:
+            nrep += 1 if _report(ctx, hbin, r, m, None, "correspondence", budget, seen) else 0
     if not have_driver:
         ctx.violation({"kind": "driver", "what": "Lean driver for C15 does not build", "detail": getattr(ctx, "driver_log", "")[-3000:]},
                       no_failing_input=True)
@@ -375,7 +481,8 @@ def run(ctx):
         "requests_executed_on_implementation": acc.reqs,
         "distinct_nontrivial": len(acc.nontriv),
         "rule": "distinct (cache, history) in which a hash-only lookup hits, or misses a hash that was registered earlier in the "
-                "history (eviction), or a text is sent with a hash it does not hash to, or a hash is registered a second time",
+                "history (eviction), or a text is sent with a hash it does not hash to, or a hash is registered a second time, "
+                "or a hash that was missed is looked up again with no registration in between",
         "input_distribution": dict(acc.branch),
         "histories_by_cache": dict(acc.bycache),
         "histories_by_generator": dict(acc.gen),
@@ -392,8 +499,14 @@ def run(ctx):
                                           "lru2+q2, " + ("length 4 on map+q, lru1+q1, lru2+q2, map, map+q1, length 5 on map+q" if thorough else "length 4 on map+q, lru1+q1")
                                           + "; over HTTP a 7-kind alphabet (with GET, pairs in flight at once) length 2-3 on map+q",
         "traces_validated_against_impl": acc.hist if have_driver else 0,
-        "correspondence_divergences": len(acc.div),
-        "spec_violations_on_implementation_traces": len(acc.specbad),
+        "correspondence_divergences": acc.div.count,
+        "spec_violations_on_implementation_traces": acc.specbad.count,
+        "failing_histories_reported": nrep,
+        "budgets": {"failing_histories_kept_per_kind": KEEP, "candidates_reported_shortest_first": MAX_REPORTS,
+                    "replays_per_shrink": SHRINK_REPLAYS, "seconds_for_all_shrinking": REPORT_SECONDS,
+                    "shrink_replays_spent": budget.replays,
+                    "no_new_exhaustive_chunk_after_spec_failures": ENOUGH,
+                    "stopped_early": acc.stopped_early, "exhaustive_chunks_skipped": skipped},
         "spec_evaluated_on": "every implementation trace (driver op chk = Apq.specOk)",
         "unparsable_implementation_traces": acc.unparsable,
         "samples": acc.samples,
